@@ -1433,15 +1433,20 @@ func (g *generator) writeRawElement(indentLevel int, n parser.RawElement) (err e
 			return err
 		}
 	} else {
+		attrs := copyAttributes(n.Attributes)
+		// <style type="text/css"></style>
+		if err = g.writeElementCSS(indentLevel, attrs); err != nil {
+			return err
+		}
 		// <script></script>
-		if err = g.writeElementScript(indentLevel, n.Attributes); err != nil {
+		if err = g.writeElementScript(indentLevel, attrs); err != nil {
 			return err
 		}
 		// <div
 		if _, err = g.w.WriteStringLiteral(indentLevel, fmt.Sprintf(`<%s`, html.EscapeString(n.Name))); err != nil {
 			return err
 		}
-		if err = g.writeElementAttributes(indentLevel, n.Name, n.Attributes); err != nil {
+		if err = g.writeElementAttributes(indentLevel, n.Name, attrs); err != nil {
 			return err
 		}
 		// >
@@ -1467,15 +1472,20 @@ func (g *generator) writeScriptElement(indentLevel int, n parser.ScriptElement) 
 			return err
 		}
 	} else {
+		attrs := copyAttributes(n.Attributes)
+		// <style type="text/css"></style>
+		if err = g.writeElementCSS(indentLevel, attrs); err != nil {
+			return err
+		}
 		// <script></script>
-		if err = g.writeElementScript(indentLevel, n.Attributes); err != nil {
+		if err = g.writeElementScript(indentLevel, attrs); err != nil {
 			return err
 		}
 		// <div
 		if _, err = g.w.WriteStringLiteral(indentLevel, "<script"); err != nil {
 			return err
 		}
-		if err = g.writeElementAttributes(indentLevel, "script", n.Attributes); err != nil {
+		if err = g.writeElementAttributes(indentLevel, "script", attrs); err != nil {
 			return err
 		}
 		// >
